@@ -253,7 +253,7 @@ def gen_y(rng, n, style=None):
 
 
 def gen_w(rng, n, allow_none=True):
-    style = rng.choice((["none"] if allow_none else []) + ["ones", "int", "int", "dyadic", "float", "first"])
+    style = rng.choice((["none"] if allow_none else []) + ["ones", "int", "int", "dyadic", "float", "first", "tiny"])
     if style == "none":
         return None
     if style == "ones":
@@ -264,11 +264,16 @@ def gen_w(rng, n, allow_none=True):
         ws = [rng.choice([Fraction(1, 4), Fraction(1, 2), 1, 2, 4]) for _ in range(n)]
     elif style == "float":
         ws = [Fraction(rng.randint(1, 2**16), 2**12) for _ in range(n)]
+    elif style == "tiny":  # genuinely different weights of very small (or huge) magnitude
+        sc = rng.choice([Fraction(1, 2**30), Fraction(1, 2**40), 2**30])
+        ws = [rng.randint(1, 5) * sc for _ in range(n)]
     else:
         ws = [1] * n
         ws[0] = rng.choice([2, 3, 5, Fraction(1, 2)])
     if n and ws[0] == 1:
         ws[0] = 2
+    if style == "tiny":
+        return [str(Fraction(v)) for v in ws]
     return [str(Fraction(v)) for v in ws]
 
 
